@@ -77,11 +77,18 @@ package repository
 //@   ensures [listed-exist]  forall k int :: { result[k] } 0 <= k && k < len(result) ==> (result[k] in refs) && strings.HasPrefix(result[k], refPrefix)
 //@   ensures [all-listed]    result1 == nil ==> (forall q string :: { (q in refs) } (q in refs) && strings.HasPrefix(q, refPrefix) ==> (exists k int :: { result[k] } 0 <= k && k < len(result) && result[k] == q))
 
-// Clocks live outside the modelled heap (their values are the subject of C05).
+// The repository's named Lamport clocks (C05): clockSeen[name] is the current value of the clock. Witnessing
+// a time never lowers a clock and lifts it to at least that time; incrementing hands out a strictly greater
+// value. (Both are verified for MemClock and assumed here for the clocks behind the interface.)
+//@ ghost var clockSeen map[string]uint64
 //@ func RepoClock.Witness
-//@   modifies nothing
+//@   modifies clockSeen
+//@   ensures [witnessed] result == nil ==> clockSeen[name] >= time
+//@   ensures [monotone]  forall n string :: { clockSeen[n] } clockSeen[n] >= old(clockSeen[n])
 //@ func RepoClock.Increment
-//@   modifies nothing
+//@   modifies clockSeen
+//@   ensures [strictly-greater] result1 == nil ==> result > old(clockSeen[name]) && clockSeen[name] == result
+//@   ensures [monotone]  forall n string :: { clockSeen[n] } clockSeen[n] >= old(clockSeen[n])
 
 // A valid hash is 40 or 64 lower-case hexadecimal characters (C17: a scalar that is not one is refused).
 //@ spec func isLowerHex(c int) bool = (c >= 48 && c <= 57) || (c >= 97 && c <= 102)
